@@ -185,6 +185,7 @@ func (fr *frame) load(T types.Type, p value) value {
 		}
 		return copyVal(v)
 	case symPtr:
+		fr.m().noteArrRead(p.b.arr, p.idx)
 		return mkSelect(p.b.arr, p.idx)
 	}
 	panic(engineError{fmt.Sprintf("load through %T", p)})
@@ -539,7 +540,9 @@ func callSSA(th *thread, caller *frame, callpos token.Pos, fn *ssa.Function, arg
 	if th.depth > 400 {
 		panic(engineError{"call depth exceeded in " + fn.String()})
 	}
-	defer func() { th.depth-- }()
+	prevFn := th.fn
+	th.fn = fn
+	defer func() { th.depth--; th.fn = prevFn }()
 	fr.env = make(map[ssa.Value]value, 16)
 	fr.block = fn.Blocks[0]
 	fr.locals = make([]value, len(fn.Locals))
@@ -1026,4 +1029,27 @@ func (m *machine) nondetResult(fn *ssa.Function, tag string) value {
 		tp[i] = one(res.At(i).Type())
 	}
 	return tp
+}
+
+// noteArrRead remembers reads that may reach the initial contents of a symbolic array, so that a model can
+// be completed with the array cells it depends on (needed to replay counterexamples concretely).
+func (m *machine) noteArrRead(arr, idx *Term) {
+	if m.replay != nil {
+		return
+	}
+	base := arr
+	for base.op == "store" {
+		base = base.args[0]
+	}
+	if base.op != "var" {
+		return
+	}
+	for _, r := range m.arrReads {
+		if r.arr == base && r.idx == idx {
+			return
+		}
+	}
+	if len(m.arrReads) < 512 {
+		m.arrReads = append(m.arrReads, arrRead{base, idx})
+	}
 }
